@@ -14,6 +14,7 @@ by compiling each of them at run time into a fresh function object and running i
 -/
 import ZygoVerif.Proofs.SimGlue
 import ZygoVerif.Proofs.SimBind
+import ZygoVerif.Proofs.SimClean
 set_option linter.unusedSimpArgs false
 namespace ZygoVerif.Sim
 open ZygoVerif.Core ZygoVerif.VM
@@ -237,9 +238,44 @@ theorem Globals.newFrame {rs : Ref.St} (hg : Globals rs) (env : Nat) (hne : rs.f
 
 /-! ## The relation for the fragment with calls -/
 
+/-- no stack mark in any binding or array of the reference state (`for` relies on it) -/
+def CleanSt (rs : Ref.St) : Prop :=
+  (∀ i x v, (rs.frames.getD i {}).vars.lookup x = some v → Clean v) ∧ CleanHeap rs.heap
+
+theorem CleanSt.setVar {rs : Ref.St} (hc : CleanSt rs) (id : Nat) (x : String) {v : Val} (hv : Clean v) :
+    CleanSt (Ref.setVar rs id x v) := by
+  unfold Ref.setVar
+  cases hid : rs.frames[id]? with
+  | none => exact hc
+  | some fr0 =>
+    have hlt := lt_of_getElem?_some hid
+    refine ⟨fun i y w hw => ?_, hc.2⟩
+    simp only [List.getD_eq_getElem?_getD, List.getElem?_set] at hw
+    by_cases hi : id = i
+    · subst hi
+      simp only [hlt, if_true, Option.getD_some, assocSet_eq, lookup_assocSet] at hw
+      split at hw
+      · injection hw with hw; subst hw; exact hv
+      · refine hc.1 id y w ?_
+        rw [List.getD_eq_getElem?_getD, hid]; exact hw
+    · simp only [hi, if_false] at hw
+      exact hc.1 i y w (by rw [List.getD_eq_getElem?_getD]; exact hw)
+
+theorem CleanSt.newFrame {rs : Ref.St} (hc : CleanSt rs) (env : Nat) : CleanSt (Ref.newFrame rs env).2 := by
+  refine ⟨fun i y w hw => ?_, hc.2⟩
+  have hw' : ((rs.frames ++ [({ parent := some env } : Ref.Frame)]).getD i {}).vars.lookup y = some w := hw
+  simp only [List.getD_eq_getElem?_getD] at hw'
+  by_cases hi : i < rs.frames.length
+  · rw [List.getElem?_append_left hi] at hw'
+    exact hc.1 i y w (by rw [List.getD_eq_getElem?_getD]; exact hw')
+  · by_cases hi' : i = rs.frames.length
+    · subst hi'; simp at hw'
+    · rw [List.getElem?_eq_none (by simp; omega)] at hw'; simp at hw'
+
 structure RelC (s : St) (rs : Ref.St) (env : Nat) : Prop extends RelCore s rs env where
   fnchain : FnChainOk s s.curfunc
   globals : Globals rs
+  clean : CleanSt rs
 
 /-- Under `RelC`, the three-stage `LexicalLookupSymbol` is the reference lookup. -/
 theorem RelC.lexLookup {s rs env} (h : RelC s rs env) (x : String) :
@@ -263,17 +299,19 @@ theorem RelC.lookup_fo {s rs env} (h : RelC s rs env) {name : String} (hn : name
   h.globals.lookupIn hn h.chain _ (by have := h.chain.lt; omega)
 
 theorem RelC.jmp {s rs env} (h : RelC s rs env) (p : Int) (d : List (Option Val)) : RelC (s.jmp p d) rs env :=
-  ⟨h.toRelCore.jmp p d, h.fnchain.transfer (s' := s.jmp p d) ⟨[], rfl⟩ (Nat.le_refl _) (fun _ _ => rfl), h.globals⟩
+  ⟨h.toRelCore.jmp p d, h.fnchain.transfer (s' := s.jmp p d) ⟨[], rfl⟩ (Nat.le_refl _) (fun _ _ => rfl), h.globals,
+   h.clean⟩
 
 theorem RelC.bind {s rs env} (h : RelC s rs env) (id : Nat) (hid : id < rs.frames.length) {x : String}
-    (hx : okBinder x = true) (v : Val) : RelC (s.bind id x v) (Ref.setVar rs id x v) env :=
+    (hx : okBinder x = true) {v : Val} (hv : Clean v) : RelC (s.bind id x v) (Ref.setVar rs id x v) env :=
   ⟨h.toRelCore.bind id hid x v, h.fnchain.transfer (s' := s.bind id x v) ⟨[], rfl⟩ (Nat.le_refl _) (fun _ _ => rfl),
-   h.globals.setVar id hx v⟩
+   h.globals.setVar id hx v, h.clean.setVar id x hv⟩
 
 theorem RelC.pushScope {s rs env} (h : RelC s rs env) :
     RelC s.pushScope (Ref.newFrame rs env).2 rs.frames.length :=
   ⟨h.toRelCore.pushScope,
    h.fnchain.transfer (s' := s.pushScope) ⟨[some s.scopes.length], rfl⟩ (Nat.le_refl _) (fun _ _ => rfl),
-   h.globals.newFrame env (by intro e; have := h.chain.lt; rw [e] at this; simp at this)⟩
+   h.globals.newFrame env (by intro e; have := h.chain.lt; rw [e] at this; simp at this),
+   h.clean.newFrame env⟩
 
 end ZygoVerif.Sim
